@@ -38,3 +38,11 @@ chk("C07", "model_checking",
     "Stateless exploration by replay of the real REPEX_state with real files and process restarts: workers 1..3, every completion order and every restart placement (at most two) exhaustively, outcomes and picks up to a deviation bound, seeds {0,1,7,+1}; every issued job's seed-sequence identity and initial generator state are compared pairwise, with the scheduler's stream, and with the restart-free stream of the same job ordinal. Engines: every engine class is run with equal/different job streams under different global RNG states.",
     "Trusted: a lost job and its re-issue are one job; post-restart scheduler draws are answered as before the crash (restored generator state). Deviation-bounded (reported). Known findings: multi-worker restart stream collisions.",
     "stateless deviation-bounded exploration on the implementation", "DESIGN.md 4/C07")
+chk("C15", "exploration",
+    "Full products of small domains against a list model: segment pairs of length 0..4 x maxlen x overlap for paste_paths, all velocity-flag patterns up to length 5 for reverse (incl. a velocity-dependent order function), aliasing after copy/+=/reverse for every frame field, all operation sequences of depth 3 (4 thorough) over a 15-op alphabet, and classification of all order sequences up to length 5 (6) over a 7-symbol alphabet for four interface triples.",
+    "Trusted: list model written from the property text. paste_paths sharing frames with its inputs is by design and not flagged.",
+    "exhaustive small-input enumeration against a reference model", "DESIGN.md 4/C15")
+chk("C20", "exploration",
+    "All relative vectors on a half-integer grid x boxes x both box forms x all translations from a grid, 27 image shifts per atom, the 24 cube rotations and velocity reversal for Distance/Distancevel; geometry tables for Dihedral/Puckering under the same groups; pbc_dist_coordinate on a 1-D sweep; the system is compared before/after every calculate().",
+    "Trusted: exact minimum-image ties are excluded for the sign-sensitive Distancevel; rotations restricted to the cube group (exact on the grid).",
+    "exhaustive enumeration over finite symmetry groups", "DESIGN.md 4/C20")
